@@ -626,7 +626,10 @@ def ob_potential_algebra():
         for op, ref, lab in cases:
             bad = same(op.evaluate(f), np.asarray(ref).reshape(1, -1)) or same(op * f, np.asarray(ref).reshape(1, -1))
             if bad:
-                return violated("potential %s: %s" % (lab, bad), signature="potential/" + lab, replay={"confirmed": False})
+                rp = replay_potential_composites()
+                return violated("potential %s: %s%s" % (lab, bad, ("; native replay with Laplace potentials on the octahedron: %s" % rp["failing"][:3]) if rp["violates"] else ""),
+                                signature="potential/" + lab, witness={"expression": lab},
+                                replay={"callable": "checks.c14:replay_potential_composites", "kwargs": {}, "confirmed": rp["violates"], "result": rp})
             if op.space is not P or op.component_count != 1 or not np.array_equal(op.evaluation_points, pts):
                 return violated("potential %s: space/component_count/evaluation_points are not those of the operands" % lab, signature="potential/attrs/" + lab, replay={"confirmed": False})
             n += 1
@@ -645,6 +648,44 @@ def ob_potential_algebra():
             continue
         return violated("sum of potential operators with %s is accepted" % lab, signature="potential/reject/" + lab, replay={"confirmed": False})
     return proved("sym-exec+normal-form", "%d expressions / rejections" % n)
+
+
+def ob_potential_native():
+    """bounded: composite real potential operators applied in all three forms, see replay_potential_composites"""
+    rp = replay_potential_composites()
+    if rp["violates"]:
+        return violated("composite potential operators act wrongly on a grid function: %s" % rp["failing"][:4], witness={"failing": rp["failing"]}, signature="potential/native",
+                        replay={"callable": "checks.c14:replay_potential_composites", "kwargs": {}, "confirmed": True, "result": rp})
+    return held("8 composite expressions x 3 application forms")
+
+
+def replay_potential_composites():
+    """Native: sums, differences, scalar multiples and negations of real Laplace potential operators, applied as op.evaluate(f), op * f and op @ f to a complex
+    grid function, equal the same combination of the leaf results."""
+    import bempp_cl.api as api
+    from bempp_cl.api.operators.potential import laplace
+
+    warnings.simplefilter("ignore")
+    g = SG.make_grid(*SG.octa())
+    sp = api.function_space(g, "P", 1)
+    pts = np.array([[2.0, -1.5, 0.3], [0.3, 0.4, 2.2], [0.1, 1.9, -0.7]])
+    s_, d_ = laplace.single_layer(sp, pts), laplace.double_layer(sp, pts)
+    rng = np.random.RandomState(3)
+    f = api.GridFunction(sp, coefficients=rng.randn(sp.global_dof_count) + 1j * rng.randn(sp.global_dof_count))
+    vs, vd = s_.evaluate(f), d_.evaluate(f)
+    cases = [("s+d", lambda: s_ + d_, vs + vd), ("d-s", lambda: d_ - s_, vd - vs), ("-s", lambda: -s_, -vs), ("2.5*s", lambda: 2.5 * s_, 2.5 * vs), ("s*(1-2j)", lambda: s_ * (1 - 2j), (1 - 2j) * vs),
+             ("(s+d)+s", lambda: (s_ + d_) + s_, 2 * vs + vd), ("2*(s+d)", lambda: 2.0 * (s_ + d_), 2 * (vs + vd)), ("-(d-s)", lambda: -(d_ - s_), vs - vd)]
+    failing = []
+    for lab, mk, want in cases:
+        try:
+            op = mk()
+            for form, got in (("evaluate", op.evaluate(f)), ("*", op * f), ("@", op @ f)):
+                err = float(np.abs(np.asarray(got) - want).max() / np.abs(want).max())
+                if not err < 1e-12:
+                    failing.append("(%s) %s f: relative deviation %.2e" % (lab, form, err))
+        except Exception as e:  # noqa: a documented combination that raises is a failure as well
+            failing.append("(%s): %s: %s" % (lab, type(e).__name__, e))
+    return {"violates": bool(failing), "failing": failing}
 
 
 def replay_potential_sum():
@@ -774,6 +815,7 @@ def main():
     run.add("grid-functions.algebra", "post", ob_gridfunction_algebra)
     run.add("blocked-operators.algebra", "post", ob_blocked_algebra)
     run.add("potential-operators.algebra", "post", ob_potential_algebra)
+    run.add("potential-operators.algebra::native[octa, Laplace single + double layer, complex density]", "bounded", ob_potential_native)
     run.add("numeric.real-operator-on-complex-vector+sparse-classes", "bounded", ob_numeric_split)
     run.bound("generic matrices of shapes 2x3, 3x2, 2x2, 3x3 (discrete, complex entries) and 2x4, 4x6, 4x4 ... (real entries; spaces on a 2-element grid); trees of depth <= 2 "
               "(discrete trees of depth 2 only in the thorough tier); expression trees of any depth follow by structural induction over the constructor contracts")
